@@ -176,10 +176,15 @@ func asciiTerm(c *ctx) string {
 func c08Batch(c *ctx, nd int, id string) zh.Batch {
 	var b zh.Batch
 	common := []string{asciiTerm(c), asciiTerm(c)}
+	// sparse fields: with some probability the whole batch (hence the segment) lacks one of the fields
+	absent := ""
+	if c.R.Chance(4) {
+		absent = []string{"body", "tag"}[c.R.Intn(2)]
+	}
 	for d := 0; d < nd; d++ {
 		doc := zh.Doc{Fields: []zh.Field{zh.IDField(fmt.Sprintf("%s%02d", id, d))}}
 		for _, fn := range []string{"body", "tag"} {
-			if c.R.Chance(5) {
+			if fn == absent || c.R.Chance(5) {
 				continue
 			}
 			f := zh.Field{Name: fn, Len: 1}
@@ -266,8 +271,26 @@ func checkC08(c *ctx) {
 		must(err)
 		ents := []*segEnt{e1, e2}
 		mc := &mergeCase{ins: []*segEnt{e1, e2}, drops: [][]uint64{nil, nil}, nilBM: []bool{true, true}, mode: mergeModes[c.R.Intn(len(mergeModes))]}
-		if c.R.Chance(3) && e1.n > 1 {
-			mc.drops[0], mc.nilBM[0] = []uint64{uint64(c.R.Intn(int(e1.n)))}, false
+		if c.R.Chance(3) {
+			// a third input, so that a segment lacking a field can precede one that has it
+			e3, err := newBuilt(c, c08Batch(c, 1+c.R.Intn(5), "c"), mode, c.R.Bool())
+			must(err)
+			ents = append(ents, e3)
+			mc.ins, mc.drops, mc.nilBM = append(mc.ins, e3), append(mc.drops, nil), append(mc.nilBM, true)
+			if c.R.Bool() {
+				mc.ins[0], mc.ins[2] = mc.ins[2], mc.ins[0]
+			}
+		}
+		// deletions in any input (never all documents of the merge)
+		for k, in := range mc.ins {
+			if c.R.Chance(3) && in.n > 1 {
+				mc.nilBM[k] = false
+				for d := uint64(0); d < in.n; d++ {
+					if c.R.Chance(3) && uint64(len(mc.drops[k]))+1 < in.n {
+						mc.drops[k] = append(mc.drops[k], d)
+					}
+				}
+			}
 		}
 		spec, _ := specMerge(c, mc)
 		r := runMerge(c, mc)
